@@ -19,7 +19,9 @@
                  are legal only as members of a NamedExpr's argument list, where they are looked up by name;
     * sub-query: an already rendered sub-query (`db.Raw(..)` handle) is well formed iff its text, re-templated the
                  way `AddVar case *DB` does it (`strings.Replace(sql, "$i", "?", 1)`), is a well-formed template for
-                 its own vars  (`C01_retemplate` proves that this holds for every ALIGNED rendering);
+                 its own vars and, under `$n`, no `$` is left over (finding F26: a `$1…` inside a literal of the raw
+                 text is hit by the loop)  — `C01_retemplate` proves that both hold for every ALIGNED rendering
+                 without `$` in its literal text;
     * modelled : identifier positions hold a Column / Table / Expr, `clause.Set` has at least one column.
 
   flatten (the `xs` component):
@@ -173,7 +175,9 @@ def spec {β : Type} (d : Dialect) : Val β → Sp β
   | .subq ns es => catSnd ((annot d es).take ns.length)
   | .rsub text vars =>
     let t := retemplate d 1 vars.length text
-    if containsSub t ['@'] then itemsSp (tableSp d vars) (nexprItems t vars.length false [] false) (annot d vars)
+    -- F26: every `$` of the rendered text must have been a placeholder the loop turned back into `?`
+    if d == .dollar && t.contains '$' then .bad
+    else if containsSub t ['@'] then itemsSp (tableSp d vars) (nexprItems t vars.length false [] false) (annot d vars)
     else pickSlots false (slotFlags t false) (annot d vars)
 /-- every element with its spec -/
 def annot {β : Type} (d : Dialect) : List (Val β) → List (Val β × Sp β)
